@@ -187,6 +187,12 @@ def literals(res):
     for f in floats:
         add(f)
         add(f + "j")
+    # a number written directly against a keyword (`1if x else 2`, `0 if y<1else 2`): the literal ends where the keyword
+    # starts; only the forms the reference accepts are kept by the caller
+    for num in ["0", "1", "7", "10", "1_0", "00", "0_0", "123456789012345678901234567890", "1.", "1.5", ".5", "1e5", "1E5", "1e-5", "1e+5", "1_0.0_1", "1j", "1.5j", "1e5j", "0x1", "0xa", "0XF", "0o7", "0b1",
+                "0x1e", "0b1_0", "5.", "0.", "0e0", "1_0e1_0"]:
+        for tpl in ("%sif x else 0", "0 if y<%selse 2", "[%sfor x in y]", "%sor 2", "%sand 2", "%sin y", "%sis y", "%sis not y", "%snot in y", "[0][%sif x else 0]"):
+            add(tpl % num)
     # digits-only literals (integer and imaginary) at the rounding boundaries of the double format: 2^53 neighbours,
     # halfway points between adjacent doubles of every magnitude, and the overflow threshold DBL_MAX + half an ulp
     import sys as _sys
